@@ -212,10 +212,15 @@ func (e *Exec) foreignGlobal(g *ssa.Global, et types.Type) Value {
 	if st, ok := et.Underlying().(*types.Struct); ok && st.NumFields() == 0 {
 		return e.zero(et)
 	}
+	if g.Pkg != nil && g.Pkg.Pkg.Path() == "golang.org/x/text/encoding/charmap" {
+		// a character map is an opaque object carrying its name (exec/charmap.go)
+		if v, ok := e.charmapGlobal(g.Name()); ok {
+			return v
+		}
+	}
 	switch g.String() {
-	case "github.com/vapourismo/knx-go/knx/util.Logger", "time.UTC", "time.Local",
-		"golang.org/x/text/encoding/charmap.ISO8859_1":
-		// nil logger; locations and the charmap are only passed to stubbed functions
+	case "github.com/vapourismo/knx-go/knx/util.Logger", "time.UTC", "time.Local":
+		// nil logger; locations are only passed to stubbed functions
 		return e.zero(et)
 	}
 	return nil
